@@ -81,6 +81,24 @@ CHECKS = {
          "both tables' labels, Snowfall's isin filter and recording-by-group for all shapes in the box, plus a direct oracle.",
     ref="6 C16", technique="Rocq proof (counting lemmas + finite case analysis) + exhaustive-small correspondence by vm_compute",
     note=TB % "c16" + "pandas .loc/isin/melt semantics modelled by `relabel`/`filter_vials`; Snowfall run sequentially with Nrep=2."),
+ "C19": dict(
+    cat="proof",
+    text="calculateDerived is TRANSLATED on every run (harness/translator.py, fail-closed) into generic Gallina definitions; props/C19.v proves about the generated "
+         "definitions every defining relation of the statement (V = A h, mass = rho V, solute + water = mass, T_eq_l, hl, cp_solution, alpha, beta_solution, lambda_solution) "
+         "and the exact acceptance condition of the enumeration checks; the layering model (model/Layer.v, _nestedDictUpdate) is proved to override exactly the named entries "
+         "and to leave every other entry at its default, for trees of any depth. Correspondence: random partial YAML files - merged tree vs Coq model and deep-merge oracle, "
+         "unknown-key report, binary64 instance of the generated definitions vs calculateDerived (2^-40), exported key list, NotImplementedError vs `rejected`; an AST scan shows "
+         "no enumeration is rejected later in the simulators.",
+    ref="6 C19", technique="translation of the source to Gallina + Rocq proof (ring, case analysis on strings, nested-tree induction) + float/tree correspondence by vm_compute",
+    note=TB % "c19" + "translator whitelist (assignments, float(config[..]) reads, string tests, raise NotImplementedError); PyYAML and float() parsing trusted; leaf values opaque in the tree model."),
+ "C20": dict(
+    cat="proof",
+    text="utils.py is TRANSLATED on every run into real-valued Coq definitions; props/C20.v proves about them: p_liquid strictly increasing on [123,332] K and p_ice on [110,273.16] K "
+         "(positive derivative by auto_derive + interval, mean-value theorem), agreement at the triple point to 1e-4 in ln p, p_ice <= p_liquid on [123,273.15] K, flux zero at equilibrium, "
+         "positive iff p_vap > p_vac, strictly increasing in p_vap, prefactor = kappa * 2/(2-kappa) * sqrt(m/(2 pi k_B)) increasing on (0,1]. Interval certificates tie the generated "
+         "definitions to the Python functions' outputs at sampled arguments; a grid oracle searches for failing inputs. The vacuum-window clauses are covered in the Snowing model (see notes).",
+    ref="6 C20", technique="translation of the source to Gallina + Rocq real analysis (Coquelicot auto_derive, Interval) + interval certificates",
+    note=TB % "c20" + "translator whitelist; numpy transcendental functions trusted to 1e-9 at certified points."),
 }
 NOT_YET = "check not built yet in this round (planned, see DESIGN.md section 6)"
 ALL = ["C%02d" % i for i in range(1, 21)]
